@@ -105,17 +105,23 @@ namespace {
 
   //! left to right substitution, written from the statement
   std::string refMangle(const std::string& s) {
+    static const std::vector<std::pair<std::string, std::string>> subst = [] {
+      std::vector<std::pair<std::string, std::string>> r;
+      for (const auto& d : table()) r.emplace_back(d.uc, d.m);
+      return r;
+    }();
     std::string r;
     std::size_t i = 0;
     while (i < s.size()) {
       bool found = false;
-      for (const auto& d : table()) {
-        const std::string uc = d.uc;
-        if (!uc.empty() && s.compare(i, uc.size(), uc) == 0) {
-          r += d.m;
-          i += uc.size();
-          found = true;
-          break;
+      if (static_cast<unsigned char>(s[i]) >= 0x80) {
+        for (const auto& d : subst) {
+          if (!d.first.empty() && s.compare(i, d.first.size(), d.first) == 0) {
+            r += d.second;
+            i += d.first.size();
+            found = true;
+            break;
+          }
         }
       }
       if (!found) r += s[i++];
